@@ -49,6 +49,7 @@ type C16Scenario struct {
 	Conns    []connPlan  `json:"conns"`
 	AccErrs  int         `json:"accept_errors"` // temporary accept errors injected before the connections
 	DialGaps []int       `json:"dial_gaps"`     // yields between dials
+	Echo     bool        `json:"echo"`          // the server hands connections to an EchoMgr (request/response sessions owned by the handler) instead of a SessionMgr
 }
 
 func drawC16(rt *rapid.T) interface{} {
@@ -89,6 +90,7 @@ func drawC16(rt *rapid.T) interface{} {
 		sc.Conns = append(sc.Conns, p)
 		sc.DialGaps = append(sc.DialGaps, rapid.IntRange(0, 3).Draw(rt, "gap"))
 	}
+	sc.Echo = rapid.IntRange(0, 7).Draw(rt, "echo") == 0
 	sc.Knobs = hx.DrawKnobs(rt, []int{300, 100, 30})
 	return sc
 }
@@ -191,6 +193,9 @@ func (h *handler) OnExit(s *stcp.Session) {
 
 func runC16(t *testing.T, sci interface{}, keepLog bool) *hx.Outcome {
 	sc := sci.(*C16Scenario)
+	if sc.Echo {
+		return runC16Echo(t, sc, keepLog)
+	}
 	var mgr *stcp.SessionMgr
 	var maxSeen int32
 	started := false
@@ -493,11 +498,11 @@ func TestC16(t *testing.T) {
 		Draw:        drawC16,
 		NewScenario: func() interface{} { return &C16Scenario{} },
 		Run:         runC16,
-		Real:        []string{"stcp.Server (accept loop), stcp.SessionMgr, stcp.Session (loopSend, loopReceive, quit, recovery), syncx/pipe/q (simgen-transformed)", "io.ReadFull", "go.uber.org/atomic", "ulog/zap (silenced)"},
+		Real:        []string{"stcp.Server (accept loop), stcp.SessionMgr, stcp.EchoMgr / stcp.Echo (count clause), stcp.Session (loopSend, loopReceive, quit, recovery), syncx/pipe/q (simgen-transformed)", "io.ReadFull", "go.uber.org/atomic", "ulog/zap (silenced)"},
 		Stubs:       []string{"net (simnet: listener the harness dials, full-duplex bounded byte pipes, deadlines on the simulated clock, reset / peer close / temporary accept errors)", "time (simtime)", "sync (simsync)", "goroutine scheduling (simrt)"},
 		Rule: "scenario = max connections {1,2,3,8} x read/write timeouts x pipe buffer {8,64,4096} x 1-4 connections, each with 0-4 client frames (echo / swallow / handler error / handler panic), a reading, late-reading or non-reading peer, a handler of the manager's or of the session's own, 0-5 server Sends of 1-200 bytes, a terminating event (local Close, peer close, reset, silence -> timeout) after a drawn delay and optionally a second racing one, temporary accept errors x scheduler knobs/tape; " +
 			"non-trivial = >=2 tasks and >=1 switch; distinct = distinct event-log hash",
-		Probes:      []string{"clean-local-close", "connection-refused-over-max", "count-reached-max", "net-accept-error-injected", "net-read-timeout", "net-write-timeout", "net-reset", "idle-before-send", "net-close-returns-error", "session-started-directly", "session-with-own-handler", "late-reader", "net-set-write-deadline-fails", "net-set-read-deadline-fails"},
+		Probes:      []string{"clean-local-close", "connection-refused-over-max", "count-reached-max", "net-accept-error-injected", "net-read-timeout", "net-write-timeout", "net-reset", "idle-before-send", "net-close-returns-error", "session-started-directly", "session-with-own-handler", "late-reader", "echo-manager-run", "net-set-write-deadline-fails", "net-set-read-deadline-fails"},
 		Assumptions: []string{"simnet close semantics: the peer reads what was written before the close, then EOF; a reset drops buffered data", "TLS, OS socket buffers and TCP half-close are out of scope"},
 	})
 }
